@@ -175,6 +175,73 @@ fn c10_fr(rng: &mut Rng, rounds: usize) {
     }
 }
 
+// ------------------------------------------------------------------ C10: curve25519 Fp vs big integers
+fn c10_c25519(rng: &mut Rng, rounds: usize) {
+    use midnight_curves::curve25519::Fp as F25;
+    let p = (BigUint::from(1u8) << 255usize) - BigUint::from(19u8);
+    let one = BigUint::from(1u8);
+    let val = |x: &F25| BigUint::from_bytes_le(&x.to_bytes());
+    let enc = |v: &BigUint| {
+        let mut b = [0u8; 32];
+        let vb = v.to_bytes_le();
+        b[..vb.len()].copy_from_slice(&vb);
+        b
+    };
+    let mut vals: Vec<BigUint> = vec![
+        BigUint::from(0u8), one.clone(), BigUint::from(2u8), &p - &one, &p - BigUint::from(2u8), (&p - &one) / 2u8, (&p + &one) / 2u8,
+        (BigUint::from(1u8) << 64usize) - &one, BigUint::from(1u8) << 64usize, (BigUint::from(1u8) << 192usize) - &one,
+        BigUint::from(1u8) << 254usize, BigUint::from(19u8), BigUint::from(38u8),
+    ];
+    for _ in 0..rounds {
+        let mut b = [0u8; 40];
+        rng.fill_bytes(&mut b);
+        vals.push(BigUint::from_bytes_le(&b) % &p);
+    }
+    // checked decoder: canonical values accepted and round-trip; every v >= p below 2^256 rejected
+    for v in &vals {
+        match Option::<F25>::from(F25::from_bytes(&enc(v))) {
+            Some(x) if val(&x) == *v => {}
+            other => report("from_bytes", &format!("v={v:x}"), format!("{:?}", other.map(|x| val(&x))), format!("Some({v:x})")),
+        }
+    }
+    let two256 = BigUint::from(1u8) << 256usize;
+    for nc in [p.clone(), &p + &one, &p + BigUint::from(18u8), &p + BigUint::from(19u8), (BigUint::from(1u8) << 255usize) + &one, &two256 - &one] {
+        if nc < two256 && bool::from(F25::from_bytes(&enc(&nc)).is_some()) {
+            report("from_bytes", &format!("non-canonical v={nc:x}"), "Some".into(), "None".into());
+        }
+    }
+    for a in &vals {
+        let fa: F25 = Option::from(F25::from_bytes(&enc(a))).unwrap_or(F25::zero());
+        let e = (&p - a) % &p;
+        if val(&fa.neg()) != e {
+            report("neg", &format!("a={a:x}"), format!("{:x}", val(&fa.neg())), format!("{e:x}"));
+        }
+        let e = (a * a) % &p;
+        if val(&fa.square()) != e {
+            report("square", &format!("a={a:x}"), format!("{:x}", val(&fa.square())), format!("{e:x}"));
+        }
+        let e = (a * 2u8) % &p;
+        if val(&fa.double()) != e {
+            report("double", &format!("a={a:x}"), format!("{:x}", val(&fa.double())), format!("{e:x}"));
+        }
+        for b in &vals {
+            let fb: F25 = Option::from(F25::from_bytes(&enc(b))).unwrap_or(F25::zero());
+            let e = (a + b) % &p;
+            if val(&fa.add(&fb)) != e {
+                report("add", &format!("a={a:x} b={b:x}"), format!("{:x}", val(&fa.add(&fb))), format!("{e:x}"));
+            }
+            let e = (a + &p - b) % &p;
+            if val(&fa.sub(&fb)) != e {
+                report("sub", &format!("a={a:x} b={b:x}"), format!("{:x}", val(&fa.sub(&fb))), format!("{e:x}"));
+            }
+            let e = (a * b) % &p;
+            if val(&fa.mul(&fb)) != e {
+                report("mul", &format!("a={a:x} b={b:x}"), format!("{:x}", val(&fa.mul(&fb))), format!("{e:x}"));
+            }
+        }
+    }
+}
+
 // ------------------------------------------------------------------ C11: Jubjub vs the affine law
 fn edwards_d() -> Fq {
     -(Fq::from(10240u64) * Fq::from(10241u64).invert().unwrap())
@@ -302,6 +369,7 @@ fn main() {
     match mode {
         "c10_jubjub_fr" => c10_fr(&mut rng, rounds),
         "c11_jubjub" => c11_jubjub(&mut rng, rounds),
+        "c10_c25519_fp" => c10_c25519(&mut rng, rounds),
         "c10_sum" => {
             // batched variants over borrowed items (impl_sum! / impl_product!)
             let v = [Fr::one(), Fr::one().double(), Fr::random(&mut rng)];
